@@ -297,6 +297,38 @@ def _token() -> dict[str, object]:
     return {"fmt": fmt, "width": width, "little": fmt[0] == "<", "short_op": short_op, "min_len": min_len, "start": start, "over_op": over_op}
 
 
+def _nwt() -> dict[str, object]:
+    """`HttpStreamSession.next_with_token`: the end-of-stream test after a response has been read.
+
+    `self._state_bytes = next_token` is followed by `if <test>: self._finished = True; return (None, None)`.  The test is
+    translated over (gotData, rows): `<var> is None` → no data batch was read; a truthiness test of a RecordBatch variable
+    (`not <var>`) is ALSO true for a batch with zero rows (`RecordBatch.__len__` is `num_rows`).
+    """
+    tree = ast.parse((REPO / CL).read_text())
+    fn = _func(tree, "next_with_token")
+    body = _strip_doc(fn)
+    idx = [i for i, st in enumerate(body) if ast.unparse(st) == "self._state_bytes = next_token"]
+    if len(idx) != 1 or idx[0] + 1 >= len(body) or not isinstance(body[idx[0] + 1], ast.If):
+        raise Shape("next_with_token: `self._state_bytes = next_token` followed by the end-of-stream `if` not found")
+    st = body[idx[0] + 1]
+    srcs = [ast.unparse(x) for x in st.body]
+    if srcs != ["self._finished = True", "return (None, None)"] or st.orelse:
+        raise Shape("next_with_token: end-of-stream branch: " + "; ".join(srcs))
+    t = st.test
+    if isinstance(t, ast.Compare) and len(t.ops) == 1 and isinstance(t.ops[0], ast.Is) and isinstance(t.left, ast.Name) \
+            and isinstance(t.comparators[0], ast.Constant) and t.comparators[0].value is None:
+        var, lean = t.left.id, "!gotData"
+    elif isinstance(t, ast.UnaryOp) and isinstance(t.op, ast.Not) and isinstance(t.operand, ast.Name):
+        var, lean = t.operand.id, "(!gotData || rows == 0)"
+    else:
+        raise Shape("next_with_token: end-of-stream test " + ast.unparse(t))
+    # the variable must be what the read loop stores the data batch in
+    stores = [n for n in ast.walk(fn) if isinstance(n, ast.Assign) and var in [x.id for tt in n.targets for x in ast.walk(tt) if isinstance(x, ast.Name)]]
+    if not stores:
+        raise Shape(f"next_with_token: {var} is never assigned")
+    return {"src": ast.unparse(t), "lean": lean}
+
+
 def _strlist(xs: list[str]) -> str:
     return "[" + ", ".join('"' + x + '"' for x in xs) + "]"
 
@@ -304,6 +336,7 @@ def _strlist(xs: list[str]) -> str:
 def emit() -> dict[str, str]:
     t = _turn()
     k = _token()
+    w = _nwt()
     lean = f"""namespace VgiVerif.Gen.C11
 
 /-! `_run_http_producer_turn` ({AS}) -/
@@ -331,6 +364,12 @@ def contFirstTick : Bool := {"true" if t['cont_first'] else "false"}
 
 /-- events of one loop iteration, in source order -/
 def loopOrder : List String := {_strlist(t['events'])}
+
+/-! `HttpStreamSession.next_with_token` ({CL}) -/
+
+/-- after a response has been read: `if {w['src']}: self._finished = True; return (None, None)`.
+`gotData` = a data batch was read from the response, `rows` = its row count -/
+def nwtEndOfStream (gotData : Bool) (rows : Nat) : Bool := {w['lean']}
 
 /-! `_encode_resume_token` / `_decode_resume_token` ({CL}) -/
 
